@@ -321,6 +321,22 @@ def run_r6(ctx, rule):
             rule.check(bool(advs), "%s/look-ahead-loop" % family(nid), "%s looks ahead at the varying offset %s inside a loop%s" % (short(nid), sy.show(off)[:40], " that also advances" if advs else " that never advances: everything it walks over stays buffered (a token function scans one item; this is parser-level code)"), fn.loc(bb))
     rule.check(n_tok >= 8, "control/token-scans", "positive control: the look-ahead loops of the token modules are seen (%d sites)" % n_tok)
 
+def run_r7(ctx, rule):
+    """The size of the buffer follows the chunk size (`resize(window end + chunk_size)`): the bound "a few chunks" is
+    a bound only if the chunk size is what the caller configured.  Decided: `chunk_size` is stored by its public
+    setter and set by the constructor, nowhere else (a reader that adapts its own read size grows with the stream)."""
+    facts = ctx.facts
+    DRT = "flussab::deferred_reader::DeferredReader"
+    n = 0
+    for f, bi, si, name in util.field_stores(facts, DRT):
+        if name != "chunk_size":
+            continue
+        n += 1
+        nid = norm(f.id)
+        rule.check(nid == A.DR + "set_chunk_size", "%s/stores-chunk_size" % family(nid), "chunk_size is stored by %s%s" % (short(nid), "" if nid == A.DR + "set_chunk_size" else ": the read size, and with it the buffer, no longer follows the configuration alone"), f.loc(bi))
+    if n == 0:
+        rule.bad("chunk_size/setter", "anchor missing: no store to chunk_size (set_chunk_size expected)", kind="anchor-missing")
+
 
 def run(ctx):
     r1 = ctx.rule("C10-R1", "every growth of a buffer that outlives the call is dominated by a clear() of the same buffer (streaming entry points)", floor=9)
@@ -334,6 +350,8 @@ def run(ctx):
     from . import c05, taint as T
     r4 = ctx.rule("C10-R4", "no allocation or reservation is sized by a number the input merely declares (shared with C05-R5)", floor=1)
     c05.run_r5(ctx, r4, T.Taint(ctx.facts))
+    r7 = ctx.rule("C10-R7", "the chunk size is what the caller configured: stored by its setter and the constructor only", floor=1)
+    run_r7(ctx, r7)
     r6 = ctx.rule("C10-R6", "look-ahead loops at a varying offset live in the token functions only (one item each); parser-level loops consume as they go", floor=1)
     run_r6(ctx, r6)
     # R5: the stack is memory too: a parser that calls itself per skipped line or per item grows with the input
